@@ -62,13 +62,13 @@ func c17Rules(c *Ctx, alias string) {
 		for i := 0; i < stt.NumFields(); i++ {
 			f := stt.Field(i)
 			if isBufT(f.Type()) {
-				bufField = f.Name()
+				bufField = FN(f)
 			}
 			if in, isN := types.Unalias(f.Type()).(*types.Named); isN && !f.Exported() && in.Obj().Pkg() != nil && in.Obj().Pkg().Path() == ZapioPath {
 				if inner, isS := in.Underlying().(*types.Struct); isS {
 					for j := 0; j < inner.NumFields(); j++ {
 						if isBufT(inner.Field(j).Type()) {
-							bufField = f.Name() + "." + inner.Field(j).Name()
+							bufField = FN(f) + "." + FN(inner.Field(j))
 						}
 					}
 				}
@@ -579,7 +579,7 @@ func c17Rules(c *Ctx, alias string) {
 		}
 		return l
 	}
-	P := p.Name()
+	P := PN(p)
 	c.Check(len(badLine) == 0 && len(placements) >= 1<<uint(N), R("R17.1"), wr.String(), "line-protocol", wr.Pos(), "bounded concrete exploration: a %d-byte chunk, every placement of newlines in it (%d placements, %d feasible paths incl. pending / no pending partial line; %d longer paths cut): what Write logs is exactly the completed lines of (pending ++ chunk), in order, empty ones included, and what it leaves buffered is exactly the unterminated rest: %v", N, len(placements), feasible, cut, lim(badLine))
 	c.Check(len(badRet) == 0, R("R17.1"), wr.String(), "consumes-all", wr.Pos(), "every path returns (len(%s), nil): %v", P, lim(badRet))
 	c.Check(len(badGate) == 0, R("R17.2"), wr.String(), "level-gate", wr.Pos(), "Write first asks the logger's core whether the writer's level is enabled (afresh on every call) and, if not, returns (len(%s), nil) without buffering or logging: %v", P, lim(badGate))
